@@ -594,6 +594,26 @@ def bind_args(ctx, call, func, target):
 # propositional reasoning over guards
 # ---------------------------------------------------------------------------
 
+def _atom_key(expr):
+    """(key, negated): `a <= b` is keyed as the negation of `b < a`; `a != b` of `a == b`;
+    `a not in b` of `a in b`; `a is not b` of `a is b`."""
+    if isinstance(expr, ast.Compare) and len(expr.ops) == 1:
+        op, l, r = expr.ops[0], expr.left, expr.comparators[0]
+        if isinstance(op, ast.LtE):
+            return f'{norm(r)} < {norm(l)}', True
+        if isinstance(op, ast.GtE):
+            return f'{norm(l)} < {norm(r)}', True
+        if isinstance(op, ast.Gt):
+            return f'{norm(r)} < {norm(l)}', False
+        if isinstance(op, ast.NotEq):
+            return f'{norm(l)} == {norm(r)}', True
+        if isinstance(op, ast.NotIn):
+            return f'{norm(l)} in {norm(r)}', True
+        if isinstance(op, ast.IsNot):
+            return f'{norm(l)} is {norm(r)}', True
+    return norm(expr), False
+
+
 def _atoms(expr, acc):
     if isinstance(expr, ast.BoolOp):
         for v in expr.values:
@@ -601,7 +621,7 @@ def _atoms(expr, acc):
     elif isinstance(expr, ast.UnaryOp) and isinstance(expr.op, ast.Not):
         _atoms(expr.operand, acc)
     else:
-        t = norm(expr)
+        t = _atom_key(expr)[0]
         if t not in acc:
             acc.append(t)
 
@@ -612,7 +632,8 @@ def _truth(expr, val):
         return all(vs) if isinstance(expr.op, ast.And) else any(vs)
     if isinstance(expr, ast.UnaryOp) and isinstance(expr.op, ast.Not):
         return not _truth(expr.operand, val)
-    return val[norm(expr)]
+    k, neg = _atom_key(expr)
+    return (not val[k]) if neg else val[k]
 
 
 def guards_imply(gs, target):
@@ -620,7 +641,8 @@ def guards_imply(gs, target):
     or AST)?  Atoms are compared by normalised text; no theory reasoning."""
     import itertools
     if isinstance(target, str):
-        target = ast.parse(target, mode='eval').body
+        from .ir import canonicalise
+        target = canonicalise(ast.parse(target, mode='eval')).body
     atoms = []
     for e, _ in gs:
         _atoms(e, atoms)
@@ -637,10 +659,11 @@ def guards_imply(gs, target):
 def equivalent(a, b):
     """Propositional equivalence of two boolean expressions (atoms by text)."""
     import itertools
+    from .ir import canonicalise
     if isinstance(a, str):
-        a = ast.parse(a, mode='eval').body
+        a = canonicalise(ast.parse(a, mode='eval')).body
     if isinstance(b, str):
-        b = ast.parse(b, mode='eval').body
+        b = canonicalise(ast.parse(b, mode='eval')).body
     atoms = []
     _atoms(a, atoms)
     _atoms(b, atoms)
